@@ -92,14 +92,18 @@ def now():
     return R.seconds()
 
 
-def drain(limit=100000):
+class LocalLivelock(Exception):
+    """The code under test keeps scheduling zero-delay calls for itself without any message or timer: it will never finish."""
+
+
+def drain(limit=6000):
     """Run every zero-delay call (foolscap eventually(), callLater(0))."""
     for _ in range(limit):
         calls = [c for c in R.getDelayedCalls() if c.getTime() <= R.seconds()]
         if not calls:
             return
         R.advance(0)
-    raise RuntimeError("livelock in local event queue")
+    raise LocalLivelock("the local event queue never empties (%d consecutive zero-delay turns): the operation spins without network traffic" % limit)
 
 
 def cancel_all_timers():
